@@ -21,7 +21,11 @@ class FrameError(Exception):
 
 def encode_body(obj, esc: bool = False) -> bytes:
     """JSON text of obj in UTF-8; esc=True => \\uXXXX escapes for non-ASCII."""
-    return json.dumps(obj, ensure_ascii=esc, separators=(",", ":")).encode("utf-8")
+    try:
+        return json.dumps(obj, ensure_ascii=esc, separators=(",", ":")).encode("utf-8")
+    except UnicodeEncodeError:
+        # lone surrogates have no UTF-8 form: such strings can only travel as \uXXXX escapes
+        return json.dumps(obj, ensure_ascii=True, separators=(",", ":")).encode("utf-8")
 
 
 def encode_frame(obj, hdr: str = "cl-first", esc: bool = False) -> bytes:
